@@ -644,6 +644,10 @@ class Facts:
                     continue
             self.crates[crate] = d
             self.meta[crate] = m
+        self.renamed = {}
+        if not os.environ.get("VERIF_NO_NORMALISE"):
+            for crate in list(self.crates):
+                self.crates[crate] = self._resolve_renames(crate, self.crates[crate])
         for crate, d in self.crates.items():
             for fj in d["fns"]:
                 fn = Fn(fj, crate)
@@ -675,6 +679,46 @@ class Facts:
         if not os.environ.get("VERIF_NO_NORMALISE"):
             self.normalise()
 
+    # ---- renamed private functions: same place, same signature, new name
+    def _resolve_renames(self, crate, d):
+        """A function of the confirmed tree that is gone, while exactly one unknown non-public function with the same
+        signature sits in the same module / impl, has been renamed: it is given its old name back (in its definition, in
+        its closures and at every call site) so that rules anchored on the name keep working."""
+        kp = os.path.join(os.path.dirname(os.path.abspath(__file__)), "known_fns.json")
+        if not os.path.exists(kp):
+            return d
+        with open(kp) as fh:
+            known = json.load(fh).get(crate)
+        if not isinstance(known, dict):
+            return d
+        cur = {}
+        for fj in d["fns"]:
+            if fj["kind"] != "Closure":
+                cur[fj["path"]] = fj
+        missing = [k for k in known if k not in cur]
+        unknown = [p for p, fj in cur.items() if p not in known and not fj.get("exported") and not (fj.get("pub") and fj.get("reachable"))]
+        if not missing or not unknown:
+            return d
+
+        def sig(fj):
+            return "(%s) -> %s" % (", ".join(fj.get("inputs", [])), fj.get("output", ""))
+        pairs = {}
+        taken = set()
+        for k in missing:
+            par = k.rsplit("::", 1)[0]
+            c = [u for u in unknown if u.rsplit("::", 1)[0] == par and sig(cur[u]) == known[k] and not (u.startswith("<") and " as " in u.split(">::")[0])]
+            if len(c) == 1 and c[0] not in taken and len([m for m in missing if m.rsplit("::", 1)[0] == par and known[m] == known[k]]) == 1:
+                pairs[c[0]] = k
+                taken.add(c[0])
+        if not pairs:
+            return d
+        text = json.dumps(d)
+        for u, k in pairs.items():
+            ue, ke = json.dumps(u)[1:-1], json.dumps(k)[1:-1]
+            text = text.replace('"%s"' % ue, '"%s"' % ke).replace(ue + "::{closure#", ke + "::{closure#")
+            self.renamed[k] = u
+        return json.loads(text)
+
     # ---- helper absorption: a crate-local function the rules have never seen is part of its callers
     def normalise(self):
         """Functions that are not in rules/known_fns.json (the items of the tree the rules were confirmed on), are not
@@ -685,7 +729,7 @@ class Facts:
         if not os.path.exists(kp):
             return
         with open(kp) as fh:
-            known = {c: set(v) for c, v in json.load(fh).items()}
+            known = {c: set(v) for c, v in json.load(fh).items()}      # dict keys (path -> signature) or a plain list
 
         def base(p):
             return re.sub(r"#\d+$", "", p)
